@@ -150,3 +150,15 @@ pub fn read_bcf(src: Source, mode: Mode, items: &mut Vec<String>) -> io::Result<
 pub fn read_bcf_raw(src: Source, mode: Mode, items: &mut Vec<String>) -> io::Result<()> {
     read_bcf_from(bcf::io::Reader::from(src.into_read()), mode, items)
 }
+
+/// The format-detecting facade (`noodles_util::variant::io::Reader`).
+pub fn read_util_variant(src: Source, items: &mut Vec<String>) -> io::Result<()> {
+    let mut r = noodles_util::variant::io::reader::Builder::default().build_from_reader(src.into_read())?;
+    let header = r.read_header()?;
+    items.push(format!("H|{}", render_header(&header)?));
+    for rec in r.records(&header) {
+        let rec = rec?;
+        items.push(format!("R|{}", render_record(&header, rec.as_ref())?));
+    }
+    Ok(())
+}
